@@ -189,7 +189,7 @@ func (iv ivals) decide(t *Term) (bool, bool) {
 	}
 	v, c, left, ok := varConst(t)
 	if !ok || v.w == 0 {
-		return false, false
+		return iv.decideR(t, rngMemo{}, 0)
 	}
 	b := iv[v.id]
 	if b == nil {
@@ -409,4 +409,234 @@ func (d *domains) decide(t *Term) (bool, bool) {
 		return false, false
 	}
 	return sawT, true
+}
+
+// ---------------------------------------------------------------------
+// range evaluation of compound terms
+//
+// rng computes bounds lo <= t <= hi that hold for every assignment allowed by
+// the learned variable intervals, but only inside the region where machine
+// arithmetic coincides with arithmetic on natural numbers: every intermediate
+// value is < 2^(w-1), so nothing wraps and the signed and unsigned readings
+// agree. Anything that could leave that region makes the evaluation give up
+// (the solver decides). This settles the bulk of "running size > limit"
+// comparisons in loops over many records without a solver query.
+
+type rngMemo map[*Term]*[3]uint64 // lo, hi, ok(1)/failed(0)
+
+func halfRange(w uint8) uint64 {
+	if w == 0 || w > 64 {
+		return 0
+	}
+	return uint64(1) << (w - 1)
+}
+
+func (iv ivals) rng(t *Term, memo rngMemo, depth int) (uint64, uint64, bool) {
+	if t.w == 0 || depth > 4000 {
+		return 0, 0, false
+	}
+	if r, ok := memo[t]; ok {
+		return r[0], r[1], r[2] == 1
+	}
+	lo, hi, ok := iv.rng1(t, memo, depth)
+	if ok && (lo > hi || hi >= halfRange(t.w)) {
+		ok = false
+	}
+	r := &[3]uint64{lo, hi, 0}
+	if ok {
+		r[2] = 1
+	}
+	memo[t] = r
+	return lo, hi, ok
+}
+
+func (iv ivals) rng1(t *Term, memo rngMemo, depth int) (uint64, uint64, bool) {
+	half := halfRange(t.w)
+	switch t.op {
+	case OpConst:
+		return t.val, t.val, t.val < half
+	case OpVar:
+		b := iv[t.id]
+		if b == nil {
+			return 0, 0, false
+		}
+		lo, hi := b.ulo, b.uhi
+		if b.slo >= 0 {
+			if uint64(b.slo) > lo {
+				lo = uint64(b.slo)
+			}
+			if uint64(b.shi) < hi {
+				hi = uint64(b.shi)
+			}
+		}
+		return lo, hi, true
+	case OpAdd:
+		alo, ahi, ok := iv.rng(t.a, memo, depth+1)
+		if !ok {
+			return 0, 0, false
+		}
+		if t.b.IsConst() && t.b.val >= half { // x + (-k)
+			k := (-t.b.val) & mask(t.w)
+			if k <= alo {
+				return alo - k, ahi - k, true
+			}
+			return 0, 0, false
+		}
+		blo, bhi, ok := iv.rng(t.b, memo, depth+1)
+		if !ok || ahi+bhi < ahi {
+			return 0, 0, false
+		}
+		return alo + blo, ahi + bhi, true
+	case OpSub:
+		alo, ahi, ok := iv.rng(t.a, memo, depth+1)
+		if !ok {
+			return 0, 0, false
+		}
+		blo, bhi, ok := iv.rng(t.b, memo, depth+1)
+		if !ok || bhi > alo {
+			return 0, 0, false
+		}
+		return alo - bhi, ahi - blo, true
+	case OpMul:
+		alo, ahi, ok := iv.rng(t.a, memo, depth+1)
+		if !ok {
+			return 0, 0, false
+		}
+		blo, bhi, ok := iv.rng(t.b, memo, depth+1)
+		if !ok {
+			return 0, 0, false
+		}
+		if ahi != 0 && bhi > (half-1)/ahi {
+			return 0, 0, false
+		}
+		return alo * blo, ahi * bhi, true
+	case OpUDiv, OpSDiv:
+		if !t.b.IsConst() || t.b.val == 0 || t.b.val >= half {
+			return 0, 0, false
+		}
+		alo, ahi, ok := iv.rng(t.a, memo, depth+1)
+		if !ok {
+			return 0, 0, false
+		}
+		return alo / t.b.val, ahi / t.b.val, true
+	case OpLShr, OpAShr:
+		if !t.b.IsConst() || t.b.val >= uint64(t.w) {
+			return 0, 0, false
+		}
+		alo, ahi, ok := iv.rng(t.a, memo, depth+1)
+		if !ok {
+			return 0, 0, false
+		}
+		return alo >> t.b.val, ahi >> t.b.val, true
+	case OpZExt, OpSExt:
+		// the operand's own range is below half of ITS width, so both
+		// extensions keep the value
+		return iv.rng(t.a, memo, depth+1)
+	case OpExtract:
+		hiBit, loBit := t.val>>8, t.val&0xff
+		if loBit != 0 || hiBit+1 != uint64(t.w) {
+			return 0, 0, false
+		}
+		alo, ahi, ok := iv.rng(t.a, memo, depth+1)
+		if !ok || ahi >= half { // truncation must not cut anything off
+			return 0, 0, false
+		}
+		return alo, ahi, true
+	case OpIte:
+		if v, ok := iv.decideR(t.a, memo, depth+1); ok {
+			if v {
+				return iv.rng(t.b, memo, depth+1)
+			}
+			return iv.rng(t.c, memo, depth+1)
+		}
+		blo, bhi, ok := iv.rng(t.b, memo, depth+1)
+		if !ok {
+			return 0, 0, false
+		}
+		clo, chi, ok := iv.rng(t.c, memo, depth+1)
+		if !ok {
+			return 0, 0, false
+		}
+		if clo < blo {
+			blo = clo
+		}
+		if chi > bhi {
+			bhi = chi
+		}
+		return blo, bhi, true
+	}
+	return 0, 0, false
+}
+
+// decideR decides a boolean term from the ranges of its operands.
+func (iv ivals) decideR(t *Term, memo rngMemo, depth int) (bool, bool) {
+	if depth > 4000 {
+		return false, false
+	}
+	switch t.op {
+	case OpConst:
+		if t.w == 0 {
+			return t.val != 0, true
+		}
+		return false, false
+	case OpBNot:
+		v, ok := iv.decideR(t.a, memo, depth+1)
+		return !v, ok
+	case OpBAnd:
+		va, oka := iv.decideR(t.a, memo, depth+1)
+		if oka && !va {
+			return false, true
+		}
+		vb, okb := iv.decideR(t.b, memo, depth+1)
+		if okb && !vb {
+			return false, true
+		}
+		return true, oka && okb
+	case OpBOr:
+		va, oka := iv.decideR(t.a, memo, depth+1)
+		if oka && va {
+			return true, true
+		}
+		vb, okb := iv.decideR(t.b, memo, depth+1)
+		if okb && vb {
+			return true, true
+		}
+		return false, oka && okb
+	case OpEq, OpUlt, OpUle, OpSlt, OpSle:
+		if t.a == nil || t.b == nil || t.a.w == 0 {
+			return false, false
+		}
+		alo, ahi, ok := iv.rng(t.a, memo, depth+1)
+		if !ok {
+			return false, false
+		}
+		blo, bhi, ok := iv.rng(t.b, memo, depth+1)
+		if !ok {
+			return false, false
+		}
+		switch t.op {
+		case OpEq:
+			if ahi < blo || bhi < alo {
+				return false, true
+			}
+			if alo == ahi && blo == bhi && alo == blo {
+				return true, true
+			}
+		case OpUlt, OpSlt:
+			if ahi < blo {
+				return true, true
+			}
+			if alo >= bhi {
+				return false, true
+			}
+		case OpUle, OpSle:
+			if ahi <= blo {
+				return true, true
+			}
+			if alo > bhi {
+				return false, true
+			}
+		}
+	}
+	return false, false
 }
